@@ -156,10 +156,10 @@ func runC16(r *Run) {
 	// (b) the hammer, in a child process: a concurrent map fault is a fatal runtime error no recover() can catch
 	bin := os.Args[0]
 	race := false
-	if r.thorough() {
-		if rb := filepath.Join(os.Getenv("VERIF_WORK"), "drv-race"); fileExists(rb) {
-			bin, race = rb, true
-		}
+	if rb := filepath.Join(os.Getenv("VERIF_WORK"), "drv-race"); fileExists(rb) {
+		// the race-enabled build of the same harness (bin/check builds it for C16 in both tiers): the quick tier runs it for
+		// a few seconds, the thorough tier for a minute
+		bin, race = rb, true
 	}
 	budget := scale(r, 6, 60)
 	ctx, cancel := context.WithTimeout(context.Background(), time.Duration(budget*6+60)*time.Second)
@@ -228,7 +228,7 @@ func runC16(r *Run) {
 	r.Case("hammer")
 	r.Case("facts")
 	r.Sample(map[string]any{"hammer_workloads": []string{"static endpoints + memory store with 50ms idle timeout", "discovery endpoints (cold cache, first answers fail)", "Redis store", "TLS pool with CA file rewrites", "secret reconcile"}})
-	r.Finish("16-32 goroutines hammer one ExtAuthZFilter per workload (login redirects, callbacks, application requests on shared and on expiring sessions, logouts) for static and for discovered endpoints, memory and Redis stores, while other goroutines reconcile the client secret, rewrite the watched CA file and load TLS configs; run in a child process with a watchdog per check; quick: fatal map faults and hangs; thorough: the same under the race detector, every report classified; the recorded findings are confirmed from the regenerated shared-write table")
+	r.Finish("16-32 goroutines hammer one ExtAuthZFilter per workload (login redirects, callbacks, application requests on shared and on expiring sessions, logouts) for static and for discovered endpoints, memory and Redis stores, while other goroutines reconcile the client secret, rewrite the watched CA file and load TLS configs; run in a child process, built with the race detector, with a watchdog per check (quick: 6 s, thorough: 60 s): fatal map faults, hangs, and every race report classified by its two access stacks; the recorded findings are confirmed from the regenerated shared-write table")
 }
 
 func fileExists(p string) bool { _, err := os.Stat(p); return err == nil }
@@ -447,6 +447,14 @@ func runC16Hammer(r *Run) {
 				// seed the contested session directly in the store now and then (it expires 1 s later in the memory store)
 				if i%50 == 7 {
 					_ = fac.Get(oc).SetTokenResponse(context.Background(), shared, &oidc.TokenResponse{IDToken: mintToken(tokSpec{Mode: "good", Exp: time.Now().Unix() + 30, Aud: oc.ClientId, Sub: "u", Extra: "sh"})})
+				}
+				// ... and now and then with tokens that are already expired but refreshable: every goroutine of this workload
+				// that presents it next runs the refresh exchange on the SAME session at the same time
+				if i%50 == 31 {
+					idp.set(idpAnswer{Kind: "body", TokenType: "Bearer", Access: "a2", Refresh: "r2", ExpiresIn: i64(30),
+						ID: mintToken(tokSpec{Mode: "good", Exp: time.Now().Unix() + 30, Aud: oc.ClientId, Sub: "u", Extra: "shr"})})
+					_ = fac.Get(oc).SetTokenResponse(context.Background(), shared, &oidc.TokenResponse{RefreshToken: "r1", AccessToken: "a1",
+						IDToken: mintToken(tokSpec{Mode: "good", Exp: time.Now().Unix() - 5, Aud: oc.ClientId, Sub: "u", Extra: "shx"})})
 				}
 			}
 		}(g)
